@@ -165,6 +165,19 @@ func runProp(repo, verif string, pd *propDef, tier string, seed int) (code int) 
 	if tier == "thorough" {
 		mr := mutantSweep(repo, verif, pd)
 		r.Mutants = mr
+		// engine self-check: the AST call index covers every VTA edge between functions in scope
+		if p, err := Load(repo, "", ""); err == nil {
+			n, missing, verr := p.vtaCrossCheck()
+			switch {
+			case verr != nil:
+				r.Notes = append(r.Notes, "call-graph cross-check (go/ssa + VTA over CHA) could not be built: "+verr.Error())
+			case len(missing) == 0:
+				r.Hold("R-CALLGRAPH", "-", "", "AST call index covers the VTA call graph", fmt.Sprintf("all %d VTA edges between functions in scope are edges of the call index the rules use", n), true)
+			default:
+				r.Notes = append(r.Notes, fmt.Sprintf("WARNING: %d VTA call edges are not in the AST call index (reachability-based rules may miss callees): %s", len(missing), strings.Join(missing, "; ")))
+				fmt.Printf("WARNING: call-graph cross-check: %d VTA edges missing from the AST call index: %s\n", len(missing), strings.Join(missing, "; "))
+			}
+		}
 	}
 	r.Assume(pd.Assume...)
 	return r.Finish(verif, levelOf(pd), seed)
